@@ -641,6 +641,7 @@ var builtinUFuns = map[string]*UFun{
 	"StrLower":    {"StrLower", []Sort{SInt}, SInt},
 	"StrContains": {"StrContains", []Sort{SInt, SInt}, SBool},
 	"LenOf":       {"LenOf", []Sort{SInt}, SInt},
+	"CapOf":       {"CapOf", []Sort{SInt}, SInt},
 	"mapget":      {"mapget", []Sort{SInt, SInt}, SInt},
 	"maphas":      {"maphas", []Sort{SInt, SInt}, SBool},
 	"Marshal":     {"Marshal", []Sort{SInt, SInt, SInt}, SInt},
